@@ -273,3 +273,7 @@ impl<A: LoadableAsset + SeekableAsset> TapeImpl for Tap<A> {
         Ok(())
     }
 }
+
+#[cfg(kani)]
+#[path = "/verif/hooks/core/tap.rs"]
+mod verif_hooks;
